@@ -67,9 +67,11 @@ class Default(TMGRStagingOutputComponent):
 
         for task in tasks:
 
-            # we only handle staging for tasks which end up in `DONE` state
+            # we only handle staging for tasks which end up in `DONE` state,
+            # unless staging was requested for failed tasks, too
             target_state = task.get('target_state')
-            if target_state and target_state != rps.DONE:
+            if target_state and target_state != rps.DONE \
+                    and not task['description'].get('stage_on_error'):
                 self._log.debug('skip staging for %s', task['uid'])
                 no_staging_tasks.append(task)
                 continue
